@@ -791,9 +791,9 @@ def _run(ck, rep, ok, info, wd):
     if other_exc:
         ck.notes.append("adversarial documents ending in an exception other than StructureFormatError (subject of C13, no effect observed): %r" % other_exc)
     for key, lst in sorted(agg.items()):
-        n, what, rep, nfi = min(lst, key=lambda t: t[0])
-        rep = dict(rep, ncases=len(lst))
-        ck.fail(key, "%s [%d case(s) with this key]" % (what, len(lst)), rep, no_failing_input=nfi)
+        n, what, rpl, nfi = min(lst, key=lambda t: t[0])
+        rpl = dict(rpl, ncases=len(lst))
+        ck.fail(key, "%s [%d case(s) with this key]" % (what, len(lst)), rpl, no_failing_input=nfi)
     # leftovers in the working directory = effects
     left = res.get("leftover", []) + os.listdir(wd)
     if left:
